@@ -75,6 +75,26 @@ def ensure_driver():
             raise ExtractionError("driver build failed:\n" + r.stdout[-4000:])
 
 
+def _save_depcache(target, dcache):
+    """keep the dependency artifacts of a finished extraction (everything except the analysed crate's own files)"""
+    tmpc = dcache + ".tmp%d" % os.getpid()
+    shutil.rmtree(tmpc, ignore_errors=True)
+    os.makedirs(tmpc)
+    subprocess.run(["cp", "-al", target, os.path.join(tmpc, "target")], check=True, stdout=subprocess.PIPE, stderr=subprocess.STDOUT)
+    for dp, dns, fns in os.walk(os.path.join(tmpc, "target")):
+        for nm in list(dns):
+            if nm.startswith("toodee-") or nm == "incremental":
+                shutil.rmtree(os.path.join(dp, nm), ignore_errors=True)
+                dns.remove(nm)
+        for nm in fns:
+            if re.match(r"^(lib)?toodee-", nm):
+                os.remove(os.path.join(dp, nm))
+    try:
+        os.rename(tmpc, dcache)
+    except OSError:
+        shutil.rmtree(tmpc, ignore_errors=True)      # somebody else saved it first
+
+
 def extract(config="default", root=None, crate_dir=None):
     """Returns the path of a facts file for the current tree of `root` in `config`."""
     root = root or REPO
@@ -94,6 +114,14 @@ def extract(config="default", root=None, crate_dir=None):
         tdir = tempfile.mkdtemp(prefix="tgt-", dir=WORK)
         try:
             tmp_out = os.path.join(tdir, "facts.json")
+            # dependencies (serde, serde_derive, syn ..) are identical for every tree: seed the fresh target directory with a
+            # hard-linked copy of a cache that holds ONLY dependency artifacts (the crate's own fingerprints are never cached,
+            # so the wrapper always runs on the crate itself; asserted below by the presence of the facts file)
+            dcache = os.path.join(WORK, "depcache-%s" % config)
+            if os.path.isdir(os.path.join(dcache, "target")):
+                r0 = subprocess.run(["cp", "-al", os.path.join(dcache, "target"), os.path.join(tdir, "target")], stdout=subprocess.PIPE, stderr=subprocess.STDOUT)
+                if r0.returncode != 0:
+                    shutil.rmtree(os.path.join(tdir, "target"), ignore_errors=True)
             env = dict(os.environ)
             env.update({
                 "LD_LIBRARY_PATH": sysroot() + "/lib" + (":" + env["LD_LIBRARY_PATH"] if env.get("LD_LIBRARY_PATH") else ""),
@@ -122,6 +150,11 @@ def extract(config="default", root=None, crate_dir=None):
                 except OSError:
                     pass
             shutil.move(tmp_out, out)
+            if not os.path.isdir(os.path.join(dcache, "target")):
+                try:
+                    _save_depcache(os.path.join(tdir, "target"), dcache)
+                except OSError:
+                    shutil.rmtree(dcache, ignore_errors=True)
         finally:
             shutil.rmtree(tdir, ignore_errors=True)
     return out
